@@ -203,6 +203,16 @@ JudgePosClose(s, h, e, p) ==
                                                      /\ \A q \in DOMAIN Pos(s) \ {e.pid} : Pos(p)[q] = Pos(s)[q]),
        C08_close_moves_no_tokens |-> G(e.ok, p.bal = s.bal /\ p.supply = s.supply /\ Farms(p) = Farms(s)),
        C10_effect_next_epoch   |-> G(good, NextEpochEffect(s, p, pp.owner, pp.lp) /\ HistOthersUnchanged(s, p, pp.owner, pp.lp, h)),
+       \* what stops counting is the weight of the closed amount at the position's own lock (FarmCurve), saturating at zero;
+       \* when the last open position of the LP is closed the history is wiped instead
+       C10_close_removes_closed_weight |-> G(good /\ pp.lp \in OpenLps(p, pp.owner),
+                                             LET uw == F!LatestValue(Hist(s, pp.owner, pp.lp))
+                                                 x == IF e.partial.set THEN e.partial.a ELSE pp.amt
+                                             IN F!LatestValue(Hist(p, pp.owner, pp.lp)) = BSub(uw, CV!CurveWeight(x, pp.dur))),
+       C06_closed_position_stops_earning |-> G(good /\ pp.lp \in OpenLps(p, pp.owner),
+                                               LET uw == F!LatestValue(Hist(s, pp.owner, pp.lp))
+                                                   x == IF e.partial.set THEN e.partial.a ELSE pp.amt
+                                               IN F!LatestValue(Hist(p, pp.owner, pp.lp)) = BSub(uw, CV!CurveWeight(x, pp.dur))),
        C10_close_never_adds_weight |-> G(good, /\ BLe(F!LatestValue(Hist(p, pp.owner, pp.lp)), F!LatestValue(Hist(s, pp.owner, pp.lp)))
                                                /\ BLe(F!LatestValue(Hist(p, "fm", pp.lp)), F!LatestValue(Hist(s, "fm", pp.lp)))),
        C20_farm_rejected_noop  |-> G(~e.ok, Unchanged(s, p)) ]
